@@ -146,6 +146,30 @@ def scenarios():
             exp = lab_v1.Resp(note="re:" + rpc)
             if (out != [exp, exp]) if kind.endswith("stream") else (out != exp):
                 failures.append({"case": f"sync {pyname}", "returned": repr(out)[:200]})
+        # streaming arities (asyncio): `await client.m(...)` hands back the reply (client streaming) or an async iterator over the replies
+        async def _collect(pyname, kind):
+            if kind == "unary_stream":
+                stream = await getattr(aclient, pyname)(request=lab_v1.Req(name="p/1"))
+                return [r async for r in stream]
+            if kind == "stream_unary":
+                return await getattr(aclient, pyname)(requests=iter([lab_v1.Req(name="a"), lab_v1.Req(name="b")]))
+            stream = await getattr(aclient, pyname)(requests=iter([lab_v1.Req(name="a")]))
+            return [r async for r in stream]
+        for pyname, rpc, kind in (("watch", "Watch", "unary_stream"), ("upload", "Upload", "stream_unary"), ("chat", "Chat", "stream_stream")):
+            cases += 1
+            log.clear()
+            try:
+                out = asyncio.run(_collect(pyname, kind))
+                if kind == "stream_unary" and hasattr(out, "__await__"):
+                    out = asyncio.run(_await(out))            # (api-core hands the awaitable call object through; awaiting it yields the reply)
+            except Exception as e:      # noqa
+                failures.append({"case": f"async {pyname}", "error": repr(e)[:200]})
+                continue
+            if len(log) != 1 or log[0][0] != kind or log[0][1] != f"/acme.lab.v1.Lab/{rpc}":
+                failures.append({"case": f"async {pyname}", "channel_log": repr(log)[:200]})
+            exp = lab_v1.Resp(note="re:" + rpc)
+            if (out != [exp, exp]) if kind.endswith("stream") else (out != exp):
+                failures.append({"case": f"async {pyname}", "returned": repr(out)[:200]})
     return {"cases": cases, "failures": failures}
 
 
